@@ -48,6 +48,8 @@ func main() {
 		}
 		fmt.Println("no check for property", id)
 		os.Exit(2)
+	case "replay":
+		cmdReplay(os.Args[2:])
 	case "corpus":
 		cmdCorpus(os.Args[2:])
 	case "explore":
